@@ -20,11 +20,11 @@ structure St where
   env : DEnv
   db : DDb
 
-def mkEnv (logs : List (LogId × Option Bytes)) : DEnv where
+def mkEnv (logs : List (LogId × Option Bytes)) (canSign : Bool := true) : DEnv where
   logList := logs.map (·.1)
   idOf := fun id => (logs.lookup id).join
   verify := fun _ _ _ _ s => s.2
-  cosign := fun _ => ()
+  cosign := fun _ => if canSign then some () else none
   nodeH := rfcNodeH
 
 def St.init : St := ⟨mkEnv [], Db.empty⟩
@@ -124,6 +124,11 @@ def libLine : List String → Option String
         | some r => "ok " ++ toHex r
         | none => "err"
     | _, _, _, _ => none
+  | ["cosin", _, size, ts, root, ha, sa, sig, lid] =>
+    match some 0, parseNat? size, parseNat? ts, fromHex root, parseNat? ha, parseNat? sa, fromHex sig, fromHex lid with
+    | some (_ : Nat), some size, some ts, some root, some ha, some sa, some sig, some lid =>
+      some (toHex (cosigInput size ts root ha sa sig lid))
+    | _, _, _, _, _, _, _, _ => none
   | "cons" :: m :: n :: r1 :: r2 :: k :: rest =>
     match parseNat? m, parseNat? n, fromHex r1, fromHex r2, parseNat? k with
     | some m, some n, some r1, some r2, some k => (parseHexList k rest).map fun (p, _) =>
@@ -140,6 +145,12 @@ def handle (st : St) (line : String) : St × String :=
     match parseNat? n with
     | some n => match parseLogs n rest with
       | some logs => (⟨mkEnv logs, Db.empty⟩, "ok")
+      | none => (st, "bad-op")
+    | none => (st, "bad-op")
+  | "newx" :: n :: rest =>   -- a witness whose key `signSTH` cannot use
+    match parseNat? n with
+    | some n => match parseLogs n rest with
+      | some logs => (⟨mkEnv logs false, Db.empty⟩, "ok")
       | none => (st, "bad-op")
     | none => (st, "bad-op")
   | "upd" :: rest =>
